@@ -582,10 +582,33 @@ func vc04Query(r *rand.Rand) string {
 	return ""
 }
 
+// path SEGMENTS that look like (parts of) a request target — "://", "?" and "#", literal and %-encoded — in parameter and
+// catch-all positions of /internal routes: a guard that "normalises" its input (strips a scheme/authority or a query) before
+// the prefix test would lose the /internal prefix of the DECODED path while the router still dispatches on it
+func vc04SchemeInSegment(r *rand.Rand) string {
+	prefix := []string{"/internal/x/", "/internal/w/", "/internal/deep/", "/internal/vdr/v1/did/", "/internal/p/", "/internal/x/a/", "/internal/w/a/b/",
+		"/public/", "/status/sub/"}[r.Intn(9)]
+	seg := []string{"https:%2F%2Fexample.com", "urn:svc%3A%2F%2Fa", "http%3A%2F%2Fh", "x%3a%2f%2Fy", "HTTP:%2f%2FH%2Finternal", "a:%2F/b", "did:web:h%3A%2F%2Fx",
+		"http://evil.example/x", "s://", "a%3A//b/c", "://", "%3A%2F%2F", "a%3Fb", "a%3fb=c", "id%3Fx=1%26y", "a%23b", "a%23frag%3Fq", "a%3Fq:%2F%2Fb",
+		"https:%2F%2Fexample.com%3Fq%23f", "x:%2F%2F%2E%2E%2F%2E%2E"}[r.Intn(20)]
+	p := prefix + seg
+	switch r.Intn(6) {
+	case 0:
+		p += "/sub"
+	case 1:
+		p += "/"
+	case 2:
+		p = strings.Replace(p, "/internal/", "/internal/x/../", 1)
+	}
+	return p
+}
+
 func vc04Target(r *rand.Rand, method string, bases []string) []byte {
 	p := bases[r.Intn(len(bases))]
-	if r.Intn(8) == 0 {
+	if k := r.Intn(16); k < 2 {
 		p = vc04Traversal(r)
+	} else if k < 4 {
+		p = vc04SchemeInSegment(r)
 	} else if r.Intn(2) == 0 {
 		p = vc04MutatePath(r, p)
 	}
@@ -928,6 +951,11 @@ func TestVerifC04(t *testing.T) {
 	// matchesPath / getBindFromPath differential
 	for i := 0; i < nReq/5; i++ {
 		a := vc04MutatePath(r, vc04BasePaths[r.Intn(len(vc04BasePaths))]) + vc04Query(r)
+		if i%4 == 0 { // decoded forms of scheme-in-segment paths: what the auth skipper hands to matchesPath
+			if u, err := url.PathUnescape(vc04SchemeInSegment(r)); err == nil {
+				a = u
+			}
+		}
 		b := []string{"/internal", "/", "/internal/", "/status", "/metrics", "/health", "", "/a/b"}[r.Intn(8)]
 		op := vc04Op{Op: "matchesPath", A: hex.EncodeToString([]byte(a)), B: hex.EncodeToString([]byte(b)), Show: strconv.QuoteToASCII(a)}
 		emit(op, run(op))
